@@ -2744,6 +2744,7 @@ func (s *swamp) CloneAndDeleteExpiredTreasures(howMany int32) ([]treasure.Treasu
 
 	// shift the expired treasures from the swamp
 	shiftedTreasures := s.expirationTimeBeaconASC.ShiftExpired(int(howMany))
+	verifhook.Point("swamp.shift.afterSelect")
 
 	// delete the shifted treasures from the other indexes
 	for _, d := range shiftedTreasures {
@@ -2824,6 +2825,7 @@ func (s *swamp) CloneAndDeleteMatchingTreasures(beaconType BeaconType, order Bea
 	}
 
 	shiftedTreasures, capReached := bcn.ShiftMatching(int(howMany), predicate, capPredicate, int(capMax))
+	verifhook.Point("swamp.shift.afterSelect")
 
 	// Drop shifted treasures from every sibling index — same as
 	// CloneAndDeleteExpiredTreasures. Permanent delete (shadowDelete=false).
